@@ -188,7 +188,7 @@ def _register(ck, r):
 
 
 def run(ck):
-    nbase = ck.n(45, 3000)
+    nbase = ck.n(45, 6000)
     per = ck.n(4, 30)
     chunks = [(ck.seed, cid, per) for cid in range(math.ceil(nbase / per))]
     for item, st, val in jobs.pmap(_chunk, chunks, timeout=ck.n(900, 7200)):
